@@ -152,7 +152,7 @@ def run(ctx):
         flush()
     # 2. random exact matrices, fresh and reused solver objects, different shapes in sequence
     kinds = ['int', 'tie', 'grade', 'frac', 'dyadic', 'small']
-    n = ctx.scale(1500, 40000)
+    n = ctx.scale(1500, 10000)      # the literal function-valued model is slow on 10x10 matrices: thorough stays within ~15 min
     shared = Munkres()
     for k in range(n):
         kind = kinds[k % len(kinds)]
